@@ -59,6 +59,23 @@ func (c *Compiler) validateAllGroupings(m parse.Node, n parse.Node) error {
 	return nil
 }
 
+// usesWithin returns the uses statements anywhere below n.  Nested grouping
+// definitions are not descended into: they are only expanded where they are
+// used, and are validated in their own right.
+func usesWithin(n parse.Node) []parse.Node {
+	var uses []parse.Node
+	for _, ch := range n.Children() {
+		switch ch.Type() {
+		case parse.NodeGrouping:
+			continue
+		case parse.NodeUses:
+			uses = append(uses, ch)
+		}
+		uses = append(uses, usesWithin(ch)...)
+	}
+	return uses
+}
+
 func (c *Compiler) validateGrouping(
 	m parse.Node,
 	g parse.Node,
@@ -68,8 +85,10 @@ func (c *Compiler) validateGrouping(
 		return fmt.Errorf("Grouping cycle detected in: grouping %s", g.Name())
 	}
 
+	// group_map holds the groupings on the current chain of uses statements.
 	group_map[g.Name()] = true
-	for _, u := range g.ChildrenByType(parse.NodeUses) {
+	defer delete(group_map, g.Name())
+	for _, u := range usesWithin(g) {
 		gname := u.ArgIdRef()
 		mod, err := u.GetModuleByPrefix(
 			gname.Space, c.modules, c.skipUnknown)
@@ -83,7 +102,7 @@ func (c *Compiler) validateGrouping(
 			continue
 		}
 
-		ug, ok := g.LookupGrouping(gname.Local)
+		ug, ok := u.LookupGrouping(gname.Local)
 		if !ok {
 			return fmt.Errorf(
 				"Unknown grouping (grouping %s) referenced from grouping %s",
